@@ -18,7 +18,7 @@ ASSUMPTIONS = [
     "server-side limits (BSON 64-bit ints, size limits) are not emulated",
 ]
 STRATA = ["clean", "collide"]
-PER = {"quick": {"clean": 70, "collide": 25}, "thorough": {"clean": 1500, "collide": 300}}
+PER = {"quick": {"clean": 250, "collide": 60}, "thorough": {"clean": 1500, "collide": 300}}
 STEPS = {"quick": 25, "thorough": 40}
 
 
